@@ -146,3 +146,41 @@ package main
 //@     invariant compressed-clean: forall(j, 0, len(compressed), compressed[j] != "" && !$deniedUpTo(len(deny), compressed[j]) && (len(allow) > 0 ==> $allowedUpTo(len(allow), compressed[j])))
 //@   ensures denied-tags-never-selected: err == nil ==> forall(j, 0, len(out), out[j] != "" && !$deniedUpTo(len(old(ad.Deny)), out[j]))
 //@   ensures only-allowed-tags-selected: err == nil && len(old(ad.Allow)) > 0 ==> forall(j, 0, len(out), $allowedUpTo(len(old(ad.Allow)), out[j]))
+
+// ---- C18: a registry-type entry walks the whole source catalog ----
+// processRegistry pages through the source's _catalog. The page loop may end without an error
+// only when the catalog is exhausted - the registry's OWN answer (before any allow/deny filtering)
+// is empty, or ends in the cursor the request was made with - or when abortOnErr stops the run after
+// a recorded error. $pageAsked: the cursor of the most recent RepoList request; $page: the
+// repositories of its answer as the registry listed them.
+//@ ghost $pageAsked string
+//@ ghost $page []string
+//@ ghost $pageDone int
+//@ ghost $reposOK bool
+//@ func (*rootOpts).processRegistry(ctx, s, src, tgt, action) (err)
+//@   prop C18
+//@   entry-assume $reposOK
+//@   on-call RepoList: $pageAsked = last
+//@   on-call GetRepos: $page = result0
+//@   on-call filterList: $pageDone = 0
+//@   on-call processRepo: $pageDone = $pageDone + 1
+//@   on-call processRepo: $reposOK = $reposOK && result == nil
+//@   loop 0 ()
+//@     invariant errors-recorded: forall(k, 0, len(errs), errs[k] != nil) && (len(errs) > 0 ==> errs[0] != nil)
+//@     invariant ok-iff-no-error-recorded: $reposOK == (len(errs) == 0)
+//@     exit-assert catalog-exhausted-or-aborted-on-error: len($page) == 0 || $page[len($page) - 1] == $pageAsked || (opts.abortOnErr && len(errs) > 0)
+// within a page every repository that passed the filter is handed to processRepo (unless abortOnErr
+// stops the run after an error), and success of the whole entry means each of them succeeded
+//@   loop 1 (repo)
+//@     invariant errors-recorded: forall(k, 0, len(errs), errs[k] != nil) && (len(errs) > 0 ==> errs[0] != nil)
+//@     invariant ok-iff-no-error-recorded: $reposOK == (len(errs) == 0)
+//@     invariant visited-so-far: -1 <= $idx && $idx < len(sRepoList) && $pageDone == $idx + 1
+//@     exit-assert every-selected-repository-of-the-page-visited: $pageDone == len(sRepoList) || (opts.abortOnErr && len(errs) > 0)
+//@   ensures success-means-every-visited-repository-synced: err == nil ==> $reposOK
+//@ callsite builtin.append(list, add)
+//@   prop C18
+//@   name append/errs-registry
+//@   in ~/cmd/regsync
+//@   infunc \)\.processRegistry$
+//@   where the-error-list: $sameslice(list, caller.errs)
+//@   requires only-real-errors-recorded: len(add) == 1 && add[0] != nil
